@@ -27,6 +27,8 @@ type c14Case struct {
 	Values    [][]byte          `json:"values"`
 	WithNS    bool              `json:"with_ns"`   // also install a namespace translator (order/independence)
 	Companion bool              `json:"companion"` // blob paths: add an unrelated event to the batch
+	// Repairable: blob paths: the batch also holds a failure message with an invalid UTF-8 byte (repair comes first)
+	Repairable bool `json:"repairable,omitempty"`
 }
 
 func c14Enum(d protoreflect.MessageDescriptor) []vfshared.Path {
@@ -82,6 +84,13 @@ func c14Run(c c14Case) error {
 		return fmt.Errorf("HARNESS: path %q not found", c.Path)
 	}
 	msg := c14Build(*path, c.Keys, c.Values, c.Companion)
+	ref := msg
+	if c.Repairable && m.Service == "admin" {
+		var n int
+		if msg, ref, n = vfMakeRepairable(msg); n == 0 {
+			msg, ref = ref, ref // not representable in the legacy schema: runs as the plain variant
+		}
+	}
 	reqMap, respMap := c.SAMap, vfInvert(c.SAMap)
 	req, resp := vfshared.NewMessage(m.In), vfshared.NewMessage(m.Out)
 	if c.Side == "request" {
@@ -104,7 +113,7 @@ func c14Run(c c14Case) error {
 	if c.Side == "request" {
 		got = gotReq
 	}
-	want := proto.Clone(msg)
+	want := proto.Clone(ref)
 	if m.Service == "admin" {
 		r := &vfshared.RefTranslator{SA: c.SAMap}
 		if _, err := r.Translate(want.ProtoReflect()); err != nil {
@@ -180,13 +189,16 @@ func c14Classify(st *vfshared.Stats, c c14Case, tg c14Target) {
 		cl = append(cl, "typed_form")
 	}
 	cl = append(cl, "service_"+tg.m.Service)
-	st.Case(vfshared.Fingerprint(c.Method, c.Side, c.Path, c.Keys, c.SAMap, c.WithNS, c.Companion), nontrivial, cl...)
+	if c.Repairable {
+		cl = append(cl, "blob_needs_utf8_repair_first")
+	}
+	st.Case(vfshared.Fingerprint(c.Method, c.Side, c.Path, c.Keys, c.SAMap, c.WithNS, c.Companion, c.Repairable), nontrivial, cl...)
 	if nontrivial && st.WantSample() {
 		st.Sample(c)
 	}
 }
 
-const c14Rule = "every structural path (descriptors, through event blobs) from every request/response of both services to a search-attribute container (SearchAttributes message or bare map<string,Payload> named search_attributes); key sets mix mapped keys, unmapped keys and near-misses and never contain a key equal to a mapping target that is not itself mapped (stated precondition); values are payloads whose metadata mention the key; AdminService: real SA translator == reference (keys renamed, values and everything else equal); WorkflowService: translator must not match and must leave the message byte-identical; non-trivial = admin path through a blob or bare-map form with >=1 mapped and >=1 unmapped key; distinct = (method, side, path, keys, mapping, with-ns, companion)"
+const c14Rule = "every structural path (descriptors, through event blobs) from every request/response of both services to a search-attribute container (SearchAttributes message or bare map<string,Payload> named search_attributes); key sets mix mapped keys, unmapped keys and near-misses and never contain a key equal to a mapping target that is not itself mapped (stated precondition); values are payloads whose metadata mention the key; AdminService: real SA translator == reference (keys renamed, values and everything else equal); WorkflowService: translator must not match and must leave the message byte-identical; non-trivial = admin path through a blob or bare-map form with >=1 mapped and >=1 unmapped key; blob paths additionally with an unrelated companion event and with a failure message holding invalid UTF-8 in the same batch (repair comes first); distinct = (method, side, path, keys, mapping, with-ns, companion, repairable)"
 
 func TestVF_C14_Paths(t *testing.T) {
 	const part = "paths"
@@ -224,11 +236,15 @@ func TestVF_C14_Paths(t *testing.T) {
 		}
 		for _, keys := range keySets {
 			_, _, _, _, viaBlob, _ := tg.p.Features()
-			for _, companion := range []bool{false, true} {
-				if companion && !viaBlob {
+			for _, variant := range []int{0, 1, 2, 3} {
+				companion, repairable := variant&1 == 1, variant&2 == 2
+				if variant != 0 && !viaBlob {
 					continue
 				}
-				c := c14Case{Method: tg.m.FullMethod, Side: tg.side, Path: tg.p.String(), SAMap: saMap, Keys: keys, Values: [][]byte{[]byte(`"v1"`), []byte(`"CustomKeywordField"`)}, WithNS: len(keys) == 2, Companion: companion}
+				if repairable && tg.m.Service != "admin" {
+					continue
+				}
+				c := c14Case{Method: tg.m.FullMethod, Side: tg.side, Path: tg.p.String(), SAMap: saMap, Keys: keys, Values: [][]byte{[]byte(`"v1"`), []byte(`"CustomKeywordField"`)}, WithNS: len(keys) == 2, Companion: companion, Repairable: repairable}
 				if err := c14Run(c); err != nil {
 					c14Fail(t, st, part, c, err)
 				}
@@ -308,6 +324,7 @@ func TestVF_C14_Random(t *testing.T) {
 		_, _, _, _, viaBlob, _ := tg.p.Features()
 		c := c14Case{Method: tg.m.FullMethod, Side: tg.side, Path: tg.p.String(), SAMap: sa, Keys: keys, Values: vals,
 			WithNS: rapid.Bool().Draw(rt, "withNS"), Companion: viaBlob && rapid.Bool().Draw(rt, "companion")}
+		c.Repairable = viaBlob && rapid.IntRange(0, 3).Draw(rt, "repairable") == 0
 		if err := c14Run(c); err != nil {
 			c14Fail(rt, st, part, c, err)
 		}
